@@ -1,4 +1,5 @@
 import BoxoModel.C04.Model
+import BoxoModel.C05.Model
 /-! Line protocol of the C04 / C05 drivers (see /verif/harness/bsx/bsx.go for the op language). Core-only. -/
 namespace C04.Proto
 open C04
@@ -53,6 +54,7 @@ def showRes : Res → String
   | .notifyErr => "notify"
   | .mismatch => "other"
   | .storeErr => "storeerr"
+  | .readErr => "readerr"
 
 /-- events other than `emit`; `ses`: requests go through a session fetcher -/
 def showEvs (ses : Bool) (evs : List Ev) : String :=
@@ -75,6 +77,10 @@ structure St where
   store : Store := []
   /-- scripted blockstore write failure: (write calls that still succeed, sticky) -/
   pfail : Option (Nat × Bool) := none
+  /-- scripted blockstore read (Get) failure: (Get calls that still succeed, sticky) -/
+  rfail : Option (Nat × Bool) := none
+  /-- persistent Session objects / contexts with an embedded session, by name -/
+  sessions : List (String × C05.Ses) := []
 
 /-- `pf` argument of the next API call -/
 def St.pf (s : St) : Option Nat := s.pfail.map (·.1)
@@ -86,6 +92,30 @@ def St.after (s : St) (calls : Nat) : St :=
   | some (k, sticky) =>
     if calls > k then { s with pfail := if sticky then some (0, true) else none }
     else { s with pfail := some (k - calls, sticky) }
+
+/-- does the i-th Get call of the next API call succeed? -/
+def St.rd (s : St) (i : Nat) : Bool :=
+  match s.rfail with
+  | none => true
+  | some (k, sticky) => if sticky then i < k else i != k
+
+/-- account for the `calls` Get calls an API call made -/
+def St.afterReads (s : St) (calls : Nat) : St :=
+  match s.rfail with
+  | none => s
+  | some (k, sticky) =>
+    if calls > k then { s with rfail := if sticky then some (0, true) else none }
+    else { s with rfail := some (k - calls, sticky) }
+
+/-- session object of a mode token: `d` none; `s` / `c` a fresh one; `S<k>` / `C<k>` a persistent one -/
+def St.sesOf (s : St) (mode : String) : Option C05.Ses :=
+  if mode == "d" then none
+  else if mode == "s" || mode == "c" then some {}
+  else some ((s.sessions.lookup mode).getD {})
+
+def St.setSes (s : St) (mode : String) (x : C05.Ses) : St :=
+  if mode == "d" || mode == "s" || mode == "c" then s
+  else { s with sessions := (mode, x) :: s.sessions.filter (·.1 != mode) }
 
 /-- number of write CALLS behind the put events of a trace (`many`: one PutMany call for all of them) -/
 def writeCalls (many : Bool) (evs : List Ev) : Nat :=
@@ -114,6 +144,11 @@ def step (fixed : Bool) (s : St) (ln : String) : St × String :=
     match k.toNat?, s.live with
     | some k, true => ({ s with pfail := some (k, sticky == "1") }, "ok")
     | _, _ => (s, "bad-op")
+  | ["getfail", "-"] => if s.live then ({ s with rfail := none }, "ok") else (s, "bad-op")
+  | ["getfail", k, sticky] =>
+    match k.toNat?, s.live with
+    | some k, true => ({ s with rfail := some (k, sticky == "1") }, "ok")
+    | _, _ => (s, "bad-op")
   | ["vrow", code] =>
     match code.toNat? with
     | some code => (s, vrow s.cfg.al code)
@@ -136,8 +171,16 @@ def step (fixed : Bool) (s : St) (ln : String) : St × String :=
   | ["get", mode, c, ans, nOk] =>
     match parseCid c, (if ans == "err" then some none else (parseBlk ans).map some) with
     | some c, some ans =>
-      let (st, r, evs) := getBlock s.cfg s.store c ans (nOk != "0") s.pf
-      ({ s with store := st }.after (writeCalls false evs), line (showRes r) (ses mode) evs)
+      let rdOk := s.rd 0
+      let reads := if valid s.cfg.al c then 1 else 0
+      match s.sesOf mode with
+      | none =>
+        let (st, r, evs) := getBlock s.cfg s.store c ans (nOk != "0") s.pf rdOk
+        ((({ s with store := st }.after (writeCalls false evs)).afterReads reads), line (showRes r) false evs ++ " ns=0")
+      | some se =>
+        let (se', ns, st, r, evs) := C05.sesGetBlock s.cfg s.sesEx se s.store c ans (nOk != "0") s.pf rdOk
+        (((({ s with store := st }.after (writeCalls false evs)).afterReads reads).setSes mode se'),
+          line (showRes r) se'.isSes evs ++ (if ns then " ns=1" else " ns=0"))
     | _, _ => (s, "bad-op")
   | "getmany" :: mode :: nf :: rest =>
     let ks := rest.takeWhile (· ≠ "|")
@@ -146,9 +189,17 @@ def step (fixed : Bool) (s : St) (ln : String) : St × String :=
     let ans := if ans == ["err"] then some none else (ans.mapM parseBlk).map some
     match ks.mapM parseCid, ans, nf with
     | some ks, some ans, some nf =>
-      let (st, evs) := getBlocks s.cfg s.store ks ans nf s.pf
-      ({ s with store := st }.after (writeCalls false evs), line "done" (ses mode) evs)
+      let reads := (filterKeys s.cfg.al ks).length
+      match s.sesOf mode with
+      | none =>
+        let (st, evs) := getBlocks s.cfg s.store ks ans nf s.pf s.rd
+        ((({ s with store := st }.after (writeCalls false evs)).afterReads reads), line "done" false evs ++ " ns=0")
+      | some se =>
+        let (se', ns, st, evs) := C05.sesGetBlocks s.cfg s.sesEx se s.store ks ans nf s.pf s.rd
+        (((({ s with store := st }.after (writeCalls false evs)).afterReads reads).setSes mode se'),
+          line "done" se'.isSes evs ++ (if ns then " ns=1" else " ns=0"))
     | _, _, _ => (s, "bad-op")
+  | "cancelget" :: _ => (s, "cancelled")   -- context cancelled mid-call: outcome not diffed (monitors only); last op of a case
   | ["del", c] =>
     match parseCid c with
     | some c => ({ s with store := deleteBlock s.store c }, line "ok" false [])
